@@ -3,6 +3,7 @@
 package main
 
 import (
+	"time"
 	"crawshaw.io/sqlite"
 	"crawshaw.io/sqlite/sqlitex"
 	"bytes"
@@ -73,6 +74,25 @@ func (d *driver) submitSome(li *logInst, k int) {
 		case len(d.recent) > 0 && d.r.Intn(5) == 0:
 			e = d.recent[d.r.Intn(len(d.recent))] // resubmission (pending, in sequencing, or acknowledged)
 			d.stats["resubmission"]++
+		case len(d.recent) > 0 && d.r.Intn(8) == 0:
+			// a DIFFERENT entry that shares everything but one component of the dedup identity with an
+			// earlier one: same TBS under another issuer key, or the same bytes as certificate vs precertificate
+			o := d.recent[d.r.Intn(len(d.recent))]
+			c := *o
+			if o.IsPrecert && d.r.Intn(3) > 0 {
+				c.IssuerKeyHash[d.r.Intn(32)] ^= 0x40
+				d.stats["near-duplicate:other-issuer-key"]++
+			} else if o.IsPrecert {
+				c.IsPrecert = false
+				c.IssuerKeyHash = [32]byte{}
+				c.PreCertificate = nil
+				d.stats["near-duplicate:cert-vs-precert"]++
+			} else {
+				c.Certificate = append(bytes.Clone(o.Certificate), 0)
+				d.stats["near-duplicate:cert-plus-byte"]++
+			}
+			e = &c
+			d.recent = append(d.recent, e)
 		default:
 			e = d.newEntry()
 		}
@@ -526,6 +546,45 @@ func runScenario(d *driver, kind string) {
 		d.legacyScenario()
 	case "rcparallel":
 		d.rcParallel()
+	case "sharedissuer":
+		// two different entries chain to the same never-seen issuer; the first submitter is stopped
+		// inside its upload of that issuer while the second arrives and rounds go by: no checkpoint may
+		// be published that covers an entry whose issuer is not in storage (C04 audit at every publish)
+		li := d.boot(0)
+		d.submitSome(li, 1+d.r.Intn(3))
+		d.round(li)
+		d.round(li)
+		for rep := 0; rep < 2 && d.alive(li); rep++ {
+			fresh := make([]byte, 12+d.r.Intn(20))
+			d.r.Read(fresh)
+			eA, eB := d.newEntry(), d.newEntry()
+			eA.Issuers = append(eA.Issuers, fresh)
+			eB.Issuers = [][]byte{fresh}
+			d.w.mu.Lock()
+			li.in.holdIssuer = true
+			d.w.mu.Unlock()
+			doneA, doneB := make(chan struct{}), make(chan struct{})
+			go func() { d.submitOpt(li, eA, false, false); close(doneA) }()
+			d.w.mu.Lock()
+			for !li.in.subHeld && !li.in.dead {
+				d.w.cond.Wait()
+			}
+			d.w.mu.Unlock()
+			go func() { d.submitOpt(li, eB, false, false); close(doneB) }()
+			time.Sleep(20 * time.Millisecond) // B is now either waiting for A's upload or (wrongly) admitted
+			d.stats["sharedissuer-held"]++
+			d.round(li)
+			d.round(li)
+			d.w.mu.Lock()
+			li.in.holdIssuer = false
+			d.w.cond.Broadcast()
+			d.w.mu.Unlock()
+			<-doneA
+			<-doneB
+			d.sync()
+			d.round(li)
+			d.round(li)
+		}
 	case "storm":
 		d.storm()
 	case "recompute":
